@@ -214,3 +214,55 @@ def escape_chain(f, fname):
                 raise Anchor("%s: %s" % (fname, why))
             ordered = esc_first
         return ordered
+
+
+# ---- string functions by interpretation ------------------------------------------------------------------------------------
+
+class InterpStrFn:
+    """A `fn(&self, &str) -> String` of the crate evaluated by the abstract interpreter on concrete short strings.  Used
+    where the body is neither a replace chain nor a recognisable per-character loop: the function is then characterised
+    by its values on every string up to a bounded length over the alphabet of its own character literals plus
+    representatives of all other characters (the code can only compare characters against the literals it contains)."""
+
+    def __init__(self, f, fname):
+        self.f = f
+        self.fname = fname
+        self.cache = {}
+        self.consts = {}
+
+    def __call__(self, s):
+        if s in self.cache:
+            return self.cache[s]
+        it = Interp(self.f)
+        it.free_opaque = False
+        try:
+            r = it.call_fn(self.fname, [None, s])
+        except Unsupported as e:
+            raise Anchor("%s outside the interpreter's fragment: %s" % (self.fname, e))
+        if not isinstance(r, str):
+            raise Anchor("%s did not evaluate to a string on %r: %r" % (self.fname, s, r))
+        self.cache[s] = r
+        return r
+
+    def alphabet(self, extra=()):
+        return sorted(set(literal_chars(self.f, self.fname)) | set(OTHER_REPS) | set(extra))
+
+    def per_char(self, alphabet):
+        """the code of every single character, after checking that the function is a homomorphism on all strings of
+        length 2 over the alphabet (and length 3 over the characters that are rewritten) - returns (map, problems)"""
+        m = {c: self(c) for c in alphabet}
+        problems = []
+        if self("") != "":
+            problems.append("the empty string becomes %r" % self(""))
+        for a in alphabet:
+            for b in alphabet:
+                if self(a + b) != m[a] + m[b]:
+                    problems.append("%r -> %r but %r + %r" % (a + b, self(a + b), m[a], m[b]))
+        hot = [c for c in alphabet if m[c] != c] + [c for c in alphabet if any(c in v for k, v in m.items() if v != k)]
+        hot = sorted(set(hot))[:6]
+        for a in hot:
+            for b in hot:
+                for c in hot:
+                    if self(a + b + c) != m[a] + m[b] + m[c]:
+                        problems.append("%r -> %r" % (a + b + c, self(a + b + c)))
+        return m, problems[:5]
